@@ -580,3 +580,51 @@ fn c20_tcp_events() {
     kani::cover!(r.is_some(), "answered");
     kani::cover!(r.is_none(), "dropped");
 }
+
+//# harness: c08_tcp_two_flows
+//# props: C08 C07@thorough
+//# tier: quick
+//# encodes: layer_4::tcp::repl (two consecutive calls)
+//# bounds: flow A = (src, sport, dst, dportA) sends PSH|ACK with a valid cookie; then flow B = same peer, other destination port, sends PSH|ACK with an arbitrary acknowledgement number; addresses, ports, both cookies, seq/ack symbolic; 20-byte segments; empty table at the start
+//# stubs: proto::repl -> recording contract stub; synackcookie::generate -> arbitrary function of the destination port with two values (cookieA, cookieB)
+//# note: a step from an arbitrary table cannot see state that a modified implementation keeps OUTSIDE the table (caches, statics); this two-step harness does
+//# cover: B dropped after A validated
+//# cover: B accepted with its own cookie
+#[kani::proof]
+#[kani::unwind(18)]
+#[kani::stub(crate::proto::repl, crate::verif_util::proto_repl_stub)]
+#[kani::stub(crate::synackcookie::generate, crate::verif_util::generate_stub2)]
+fn c08_tcp_two_flows() {
+    let mut a: [u8; 20] = kani::any();
+    let mut b: [u8; 20] = kani::any();
+    a[12] = 0x50; a[13] = 0x18; // data offset 5, PSH|ACK
+    b[12] = 0x50; b[13] = 0x18;
+    b[0] = a[0]; b[1] = a[1]; // same source port
+    let ra = TcpPacket::new(&a[..]).unwrap();
+    let rb = TcpPacket::new(&b[..]).unwrap();
+    kani::assume(ra.get_destination() != rb.get_destination());
+    let ca: u32 = kani::any();
+    let cb: u32 = kani::any();
+    kani::assume(ca != cb);
+    unsafe { COOKIE2 = (ra.get_destination(), ca, cb); }
+    kani::assume(ra.get_acknowledgement().wrapping_sub(1) == ca);
+    let masscanned = ms_plain([kani::any(), kani::any()], MacAddr::new(0, 1, 2, 3, 4, 5));
+    let mut ci = any_ci(false);
+    proto_rec().cfg_reply_len = 1;
+    let r1 = repl(&ra, &masscanned, &mut ci);
+    assert!(r1.is_some() && proto::is_tcb_set(ca), "C07: first data segment with a valid cookie not accepted");
+    let calls_after_a = proto_rec().calls;
+    let mut ci2 = ci;
+    ci2.cookie = None;
+    let r2 = repl(&rb, &masscanned, &mut ci2);
+    let b_valid = rb.get_acknowledgement().wrapping_sub(1) == cb;
+    if b_valid {
+        assert!(r2.is_some() && proto::is_tcb_set(cb), "C08: flow B with its own valid cookie not accepted after flow A");
+        assert!(proto_rec().cookie == Some(cb), "C08: flow B handled under another flow's cookie");
+        kani::cover!(true, "B accepted with its own cookie");
+    } else {
+        assert!(r2.is_none(), "C08/C07: flow B answered without a valid cookie because flow A of the same peer was validated");
+        assert!(!proto::is_tcb_set(cb) && proto_rec().calls == calls_after_a, "C08: flow B reached the application layer / got state through flow A");
+        kani::cover!(true, "B dropped after A validated");
+    }
+}
